@@ -137,6 +137,17 @@ else:
         return st
 
 
+def _to_bytes(data):
+    # type: (Union[bytes, bytearray, memoryview, array.array[Any], mmap.mmap]) -> bytes
+    """Get the bytes of an object supporting the buffer protocol."""
+    if isinstance(data, bytes):
+        return data
+    if isinstance(data, array.array):
+        return data.tobytes()
+    # the items of the buffer may be wider than a byte
+    return memoryview(data).tobytes()
+
+
 class FTPFile(io.RawIOBase):
     def __init__(self, ftpfs, path, mode):
         # type: (FTPFS, Text, Text) -> None
@@ -251,13 +262,19 @@ class FTPFile(io.RawIOBase):
 
     def readinto(self, buffer):
         # type: (Union[bytearray, memoryview, array.array[Any], mmap.mmap]) -> int
-        data = self.read(len(buffer))
-        bytes_read = len(data)
-        if isinstance(buffer, array.array):
-            buffer[:bytes_read] = array.array(buffer.typecode, data)
+        # the size of the buffer in bytes (its items may be wider)
+        try:
+            view = memoryview(buffer)
+        except TypeError:  # pragma: no cover (array.array on Python 2)
+            size = len(buffer) * buffer.itemsize  # type: ignore
         else:
-            buffer[:bytes_read] = data  # type: ignore
-        return bytes_read
+            if view.readonly:
+                raise TypeError("readinto() argument must be a read-write buffer")
+            size = getattr(view, "nbytes", None)
+            if size is None:  # pragma: no cover (Python 2)
+                size = len(view) * view.itemsize
+        data = self.read(size)
+        return io.BytesIO(data).readinto(buffer)  # type: ignore
 
     def readline(self, size=None):
         # type: (Optional[int]) -> bytes
@@ -283,8 +300,7 @@ class FTPFile(io.RawIOBase):
         if not self.mode.writing:
             raise io.UnsupportedOperation("File not open for writing")
 
-        if isinstance(data, array.array):
-            data = data.tobytes()
+        data = _to_bytes(data)
 
         with self._lock:
             if self.mode.appending and self._write_conn is None:
@@ -310,10 +326,7 @@ class FTPFile(io.RawIOBase):
             raise io.UnsupportedOperation("File not open for writing")
         data = bytearray()
         for line in lines:
-            if isinstance(line, array.array):
-                data.extend(line.tobytes())
-            else:
-                data.extend(line)  # type: ignore
+            data.extend(_to_bytes(line))
         self.write(data)
 
     def truncate(self, size=None):
